@@ -19,7 +19,11 @@ static void buildWorld() {
   // specs first (addEd reads them)
   uint8_t par[NED + 1] = {0};
   for (int e = 2; e <= NED; e++) {
+#ifdef FIXSHAPE
+    { static const uint8_t fp[5] = {0, 0, 1, 1, 3}; par[e] = fp[e]; }   // chain A = 1-2, chain B = 1-3-4 (B's first block is as tall as A)
+#else
     par[e] = (uint8_t)verif_choice(1, e - 1);
+#endif
     if (verif_cbool()) {
       GroupSpec& g = t.spec[e][0];
       g.present = true;
@@ -74,16 +78,21 @@ extern "C" __attribute__((noinline)) void h_toy() {
   buildWorld();
   World& w = *W;
   ToyEd& t = *w.t;
-  uint64_t dInit = digest(w, 0, true);  // no block is failed yet, so the mask is irrelevant here
-  // ---- step 1: setState(T0) from the bootstrap state
+#ifdef PREACT
+  // history prefix: block PREACT was activated (and so fully validated on its own, if valid) before anything else
+  { ValidationState sp; bool okp = t.setState(*t.ed(PREACT), sp); verif_check(okp == simChainValid(w, PREACT), 30); if (okp) verif_cover(30); checkApplied(w, 500); }
+#endif
+  // ---- step 1: setState(T0)
   uint8_t T0 = (uint8_t)verif_choice(2, NED);
+  auto* tipInit = t.getBestChain().tip();
+  uint64_t dInit = digest(w, T0, true);  // marks on the target branch are masked on both sides
   ValidationState s1;
   bool ok0 = t.setState(*t.ed(T0), s1);
   bool exp0 = simChainValid(w, T0);
   verif_check(ok0 == exp0, 1);           // activated iff every payload on root..T0 is contextually valid there (C04, C19)
   if (ok0) { verif_check(t.getBestChain().tip() == t.ed(T0), 2); verif_cover(1); }
   else {
-    verif_check(t.getBestChain().tip() == t.ed(1), 3);
+    verif_check(t.getBestChain().tip() == tipInit, 3);
     verif_check(digest(w, T0, true) == dInit, 4);                     // nothing but marks on the target branch changed
     checkInvalidMarks(w, T0, 40);
     verif_cover(2);
